@@ -374,15 +374,35 @@ def _cdf_pair(prog, res):
   # reductions, by value: what is returned for reduction r, written over
   # `result` = what is returned for reduction 'none'
   def reductions(f):
+    # with sparsity_factor != 1, so that the value before and after the
+    # sparsity reshape are different expressions: the reduction must be
+    # applied to the reshaped one (what reduction 'none' returns)
     out = {}
-    _, base = _cdf_value(f, 'sigmoid', 1, 'none')
+    _, base = _cdf_value(f, 'sigmoid', 2, 'none')
     bt = norm_text(base)
     for rid in ('mean', 'geometric_mean'):
-      _, v = _cdf_value(f, 'sigmoid', 1, rid)
+      _, v = _cdf_value(f, 'sigmoid', 2, rid)
       vt = norm_text(v)
+      res.check(bt in vt, 'Y1', 'cdf|reduction:%s:operand:%s' % (
+          rid, f.qualname), f.loc(),
+                'the %s reduction is applied to the value that reduction '
+                "'none' returns" % rid,
+                'with sparsity_factor != 1 the %s reduction of %s is `%s`: it '
+                "does not reduce the value that reduction 'none' returns "
+                '(the tensor after the sparsity reshape)' % (
+                    rid, f.qualname, vt[:90]))
       if bt not in vt:
-        raise AnalysisError('CDF pair: reduction %s of %s does not reduce '
-                            'the unreduced value' % (rid, f.qualname))
+        _, b1 = _cdf_value(f, 'sigmoid', 1, 'none')
+        _, v1 = _cdf_value(f, 'sigmoid', 1, rid)
+        bt1, vt1 = norm_text(b1), norm_text(v1)
+        if bt1 not in vt1:
+          raise AnalysisError('CDF pair: reduction %s of %s does not reduce '
+                              'the unreduced value' % (rid, f.qualname))
+        e = ast.parse(vt1.replace(bt1, 'result'), mode='eval').body
+        out[rid] = ast.copy_location(ast.fix_missing_locations(e), f.node)
+        for n in ast.walk(out[rid]):
+          ast.copy_location(n, f.node)
+        continue
       e = ast.parse(vt.replace(bt, 'result'), mode='eval').body
       out[rid] = ast.copy_location(ast.fix_missing_locations(e), f.node)
       for n in ast.walk(out[rid]):
